@@ -644,7 +644,27 @@ func corpus() []Case {
 		}
 		return VM(m)
 	}
+	LX := func(x int, v ...int64) Val { r := VL(v); r.X = x; return r } // prefix of an array with x more slots
+	LLX := func(x int, xs []int, l ...[]int64) Val { r := VLL(l); r.X, r.XS = x, xs; return r }
 	return []Case{
+		// slices with capacity behind their length: a merge must not append into its first argument (nor may the membership
+		// tests built on it), a single merged slice is still a copy; the allowed cases: the argument itself handed back when
+		// there is nothing to remove, batches as sub-slices (the last one reaches into the spare capacity), in-place
+		// compaction inside len
+		{Fn: "MergeSlices", Args: []Val{LLX(0, []int{4, 0}, []int64{1, 2}, []int64{9, 9})}},
+		{Fn: "MergeSlices", Args: []Val{LLX(2, []int{3}, []int64{1, 2})}},
+		{Fn: "MergeSlice", Args: []Val{LX(4, 1, 2)}},
+		{Fn: "InComparableSlices", Args: []Val{LLX(0, []int{5, 0}, []int64{1}, []int64{7, 8}), VZ(3)}},
+		{Fn: "AllInSlices", Args: []Val{LLX(1, []int{6, 2}, []int64{}, []int64{1}), LX(2, 1), VZ(0)}},
+		{Fn: "CloneSlice", Args: []Val{LX(3, 1, 2)}},
+		{Fn: "DeduplicateSlice", Args: []Val{LX(3, 1)}},
+		{Fn: "DeduplicateSlice", Args: []Val{LX(3, 1, 1, 2)}},
+		{Fn: "FilterOutByIndices", Args: []Val{LX(2, 1, 2, 3), LX(1, 7)}},
+		{Fn: "FilterOutByIndices", Args: []Val{LX(2, 1, 2, 3), LX(1, 0)}},
+		{Fn: "ConvertSliceToBatches", Args: []Val{LX(3, 1, 2, 3, 4, 5), VZ(2)}},
+		{Fn: "DropSliceByIndices", Args: []Val{LX(2, 1, 2, 3), LX(1, 0)}},
+		{Fn: "DeduplicateSliceInPlace", Args: []Val{LX(2, 1, 1, 2)}},
+		{Fn: "TopologicalSort", Args: []Val{LLX(2, []int{3, 1}, []int64{1, 2}, []int64{2})}},
 		// DESIGN §6 C17 probe: in-place de-duplication compares against overwritten positions
 		{Fn: "DeduplicateSliceInPlaceWithCompare", Args: []Val{L(1, 1, 2, 3, 2), VZ(0)}},
 		{Fn: "DeduplicateSliceWithCompare", Args: []Val{L(1, 1, 2, 3, 2), VZ(0)}},
